@@ -67,7 +67,7 @@ func propagateAttachmentOffsets(pos []GlyphPosition, i int, direction Direction)
 
 	j := i + int(chain)
 
-	if j >= len(pos) {
+	if j < 0 || j >= len(pos) {
 		return
 	}
 
@@ -86,6 +86,9 @@ func propagateAttachmentOffsets(pos []GlyphPosition, i int, direction Direction)
 		pos[i].YOffset += pos[j].YOffset
 
 		// assert (j < i);
+		if j >= i { // invalid attachment
+			return
+		}
 		if direction.isForward() {
 			for _, p := range pos[j:i] {
 				pos[i].XOffset -= p.XAdvance
